@@ -5,7 +5,7 @@ from .common import *   # noqa: F401,F403
 from . import C11 as c11
 from . import instr_gen as ig
 
-LEAF = ['Leaf_tick', 'Leaf_query']      # translated leaf functions this property's model relies on (Tie/<name>.v)
+LEAF = ['Leaf_tick', 'Leaf_query', 'Leaf_bpm', 'Leaf_timed', 'Leaf_note']      # translated leaf functions this property's model relies on (Tie/<name>.v)
 RULE = ("(a) tempo maps: resolution in {1,2,3,7,96,100,192,480,960,random<=10^6}, 1-40 segments (thorough: up to 400), n in {1,999,1000,1001,1118,20548,117000,120000,129200,10^9,random}, "
         "gaps in {1,2,R/3,R,10^5}; queried through bpm_events.timestamp_at_tick(t): 0, every boundary, boundary+-1, far past the end, random; judged inside Coq against the exact rational "
         "time: |us - exact| <= (segments traversed) * (1/2 us + 1 ns), index = last event at or before the tick, tick 0 -> 0 exactly; "
@@ -35,7 +35,8 @@ def gen_tm(rng, maxseg):
     return R, tm
 
 
-def make_q(R, tm, ticks):
+def make_q(R, tm, ticks, direct=False):
+    """direct: the time is read through timestamp_at_tick_no_optimize_return (C12's observation point), the index through the hinted query."""
     import io
     import chartparse.chart as chart_mod
     text = chart_text(res=R, sync=["0 = TS 4"] + tempo_lines(tm))
@@ -43,11 +44,14 @@ def make_q(R, tm, ticks):
     try:
         ch = chart_mod.Chart.from_file(io.StringIO(text, newline=""))
         be = ch.sync_track.bpm_events
-        outs = [c11.r_qres(lambda t=t: be.timestamp_at_tick(t)) for t, _ in qs]
+        if direct:
+            outs = [c11.r_qres(lambda t=t: (be.timestamp_at_tick_no_optimize_return(t), be.timestamp_at_tick(t)[1])) for t, _ in qs]
+        else:
+            outs = [c11.r_qres(lambda t=t: be.timestamp_at_tick(t)) for t, _ in qs]
         out = "(Ok %s)" % coq_list(outs)
     except Exception as e:  # noqa: BLE001
         out = "(Err %s)" % pyval.errkind(e)
-    return dict(case=dict(kind="query", R=R, tm=[list(x) for x in tm], ticks=ticks),
+    return dict(case=dict(kind="query", R=R, tm=[list(x) for x in tm], ticks=ticks, direct=direct),
                 in_term="(%s, %s)" % (c11.tm_term(R, tm), coq_list("(%s, %s)" % (coq_Z(t), coq_Z(h)) for t, h in qs)),
                 out_term=out, nontrivial=len(tm) >= 2 or R % 2 == 1,
                 tags=["q:segments=%d" % min(len(tm), 10), "q:R_odd" if R % 2 else "q:R_even"], signature="C01q:" + key_of([R, tm, ticks]))
